@@ -319,7 +319,7 @@ func TestC10_TokenBinding(t *testing.T) {
 		}
 		host := mk(content)
 		other := mk(append([]byte("other"), content...))
-		kind := rapid.SampledFrom([]string{"matching", "other-signature", "bad-token-signature", "altered-host-signature"}).Draw(t, "kind")
+		kind := rapid.SampledFrom([]string{"matching", "other-signature", "bad-token-signature", "altered-host-signature", "swapped-tstinfo", "legacy-matching", "legacy-lifted"}).Draw(t, "kind")
 		au := auths[rapid.IntRange(0, 2).Draw(t, "authority")]
 		au.set(tsa.Valid, time.Date(2025, 1, 1, 0, 0, 0, 0, time.UTC))
 		over := host.Content.SignerInfos[0].EncryptedDigest
@@ -337,7 +337,55 @@ func TestC10_TokenBinding(t *testing.T) {
 			token = append([]byte{}, token...)
 			token[len(token)-5] ^= 0x40
 		}
-		tok, err := pkcs7.Unmarshal(token)
+		if kind == "swapped-tstinfo" {
+			// a token the authority issued for something else at another time, whose content
+			// (TSTInfo) is replaced afterwards by one that names this signature: the imprint
+			// matches and the authority's signature over its attributes is intact, but the
+			// attributes no longer cover the content
+			d2 := ih.New()
+			d2.Write(other.Content.SignerInfos[0].EncryptedDigest)
+			au.set(tsa.Valid, time.Date(2019, 6, 1, 0, 0, 0, 0, time.UTC))
+			donor, err := au.a.Token(ih, d2.Sum(nil), nil, true)
+			au.set(tsa.Valid, time.Date(2025, 1, 1, 0, 0, 0, 0, time.UTC))
+			if err != nil {
+				t.Fatalf("harness TSA: %v", err)
+			}
+			good, err1 := pkcs7.Unmarshal(token)
+			bad, err2 := pkcs7.Unmarshal(donor)
+			if err1 != nil || err2 != nil {
+				t.Fatalf("relic cannot parse valid tokens: %v %v", err1, err2)
+			}
+			bad.Content.ContentInfo = good.Content.ContentInfo
+			if token, err = bad.Marshal(); err != nil {
+				t.Fatalf("re-encoding the forged token: %v", err)
+			}
+		}
+		if kind == "legacy-matching" || kind == "legacy-lifted" {
+			// legacy countersignature attribute (a bare SignerInfo over the signature value),
+			// either made for this signature or lifted unchanged from another one
+			target := over
+			if kind == "legacy-lifted" {
+				target = other.Content.SignerInfos[0].EncryptedDigest
+			}
+			status, _, body := au.a.RespondMS(tsa.MarshalMSRequest(target), tsa.Valid)
+			if status != 200 {
+				t.Fatalf("harness legacy TSA: status %d", status)
+			}
+			lt, err := pkcs9.ParseLegacyResponse(body)
+			if err != nil {
+				t.Fatalf("relic cannot parse a valid legacy reply: %v", err)
+			}
+			si := &host.Content.SignerInfos[0]
+			if err := si.UnauthenticatedAttributes.Add(pkcs9.OidAttributeCounterSign, lt.Content.SignerInfos[0]); err != nil {
+				t.Fatalf("embedding: %v", err)
+			}
+			host.Content.Certificates = append(host.Content.Certificates, lt.Content.Certificates...)
+			token = nil
+		}
+		var tok *pkcs7.ContentInfoSignedData
+		if token != nil {
+			tok, err = pkcs7.Unmarshal(token)
+		}
 		if err != nil {
 			if kind == "bad-token-signature" {
 				return
@@ -345,7 +393,9 @@ func TestC10_TokenBinding(t *testing.T) {
 			t.Fatalf("relic cannot parse a valid token: %v", err)
 		}
 		useAuthenticode := rapid.Bool().Draw(t, "authenticode_oid")
-		if useAuthenticode {
+		if tok == nil {
+			err = nil
+		} else if useAuthenticode {
 			err = pkcs9.AddStampToSignedAuthenticode(&host.Content.SignerInfos[0], *tok)
 		} else {
 			err = pkcs9.AddStampToSignedData(&host.Content.SignerInfos[0], *tok)
@@ -386,7 +436,7 @@ func TestC10_TokenBinding(t *testing.T) {
 				verr = ts.VerifyChain(pool, nil, x509.ExtKeyUsageAny)
 			}
 		}
-		if kind == "matching" {
+		if kind == "matching" || kind == "legacy-matching" {
 			if verr != nil {
 				evid.SaveCase("TestC10_TokenBinding", map[string]any{"kind": kind, "error": verr.Error()})
 				t.Fatalf("a genuine, matching timestamp does not verify: %v", verr)
